@@ -263,7 +263,7 @@ def run(prop, tier, seed, args):
         inapplicable = []
         for mu in mus:
             fw._ENGINE.clear()
-            idxs = [i for i, c in enumerate(cases) if (mu.only_harness is None or mu.only_harness in c.harness)][: mu.max_cases]
+            idxs = [i for i, c in enumerate(cases) if (mu.only_harness is None or mu.only_harness in c.harness) and (mu.only_label is None or mu.only_label in c.label)][: mu.max_cases]
             res = fw.run_cases(modname, len(cases), mu.name, 5000, False, only=idxs)
             hit = [ob["ident"] for r in res for ob in r["obligations"] if ob["verdict"] == "refuted" and r["expect"] != "refuted"]
             if not hit and res and all((r.get("unsupported") or "").startswith("engine-internal: ValueError: mutation site") for r in res):
